@@ -6,6 +6,7 @@ package c18
 
 import (
 	"fmt"
+	"regexp"
 	"strings"
 )
 
@@ -89,6 +90,32 @@ type PluginElem struct {
 type Plugins struct {
 	Mode  string       `json:"mode"` // omitted | disabled | enabled
 	Chain []PluginElem `json:"chain"`
+	// string options of the chain's plugins ("" = the value of the documentation's example)
+	Key    string `json:"api_key,omitempty"`     // apiKey of every custom-auth entry (default VerifAPIKey)
+	SetVal string `json:"set_value,omitempty"`   // headers: value of set.X-App (default Helios)
+	ReqVal string `json:"req_set_val,omitempty"` // headers: value of request_set.X-From (default LB)
+}
+
+// APIKey is the apiKey every custom-auth entry of the chain is written with.
+func (p Plugins) APIKey() string {
+	if p.Key != "" {
+		return p.Key
+	}
+	return VerifAPIKey
+}
+
+func (p Plugins) setVal() string {
+	if p.SetVal != "" {
+		return p.SetVal
+	}
+	return "Helios"
+}
+
+func (p Plugins) reqVal() string {
+	if p.ReqVal != "" {
+		return p.ReqVal
+	}
+	return "LB"
 }
 
 // Model is one generated configuration file.
@@ -110,10 +137,11 @@ type Model struct {
 	Plugins      Plugins        `json:"plugins"`
 	Order        []int          `json:"order"` // order of the top-level sections in the file
 	Quote        bool           `json:"quote"` // strings double-quoted (as the shipped file) or plain
+	Single       bool           `json:"single,omitempty"` // quoted strings are written in single quotes where YAML allows it
 	Comments     bool           `json:"comments"`
 }
 
-// VerifAPIKey is the apiKey of every generated custom-auth entry; the L3 client sends it.
+// VerifAPIKey is the default apiKey of the generated custom-auth entries (Plugins.APIKey).
 const VerifAPIKey = "verif-key"
 
 // BareForms are the ways a chain entry can come without a usable config.
@@ -139,6 +167,7 @@ func ip(i int) *int       { return &i }
 type yw struct {
 	b        strings.Builder
 	quote    bool
+	single   bool
 	comments bool
 }
 
@@ -148,11 +177,25 @@ func (w *yw) line(indent int, format string, a ...any) {
 	w.b.WriteByte('\n')
 }
 
+// plainOK: strings that are written as a plain (unquoted) YAML scalar when the model does not ask for
+// quotes: they start with a letter or '/', contain no YAML indicator and no white space - '$', '=',
+// '+', '^' are ordinary characters of a plain scalar.
+var plainOK = regexp.MustCompile(`^[A-Za-z/][A-Za-z0-9_./$=+^-]*$`)
+
+var yamlWords = map[string]bool{"true": true, "false": true, "null": true, "yes": true, "no": true, "on": true, "off": true, "y": true, "n": true}
+
+// str renders a string value as a YAML scalar that reads back as exactly that string: plain where
+// that is possible and the model does not ask for quotes; otherwise single-quoted ('' for a quote,
+// everything else - $ % # \ : { } - literal) or double-quoted (\\ and \" escaped, everything else
+// literal). Values never contain control characters or line breaks.
 func (w *yw) str(s string) string {
-	if w.quote || s == "" || strings.ContainsAny(s, ":#{}[],&*!|>'\"%@` ") || s == "true" || s == "false" {
-		return `"` + s + `"`
+	if !w.quote && plainOK.MatchString(s) && !yamlWords[strings.ToLower(s)] {
+		return s
 	}
-	return s
+	if w.single {
+		return "'" + strings.ReplaceAll(s, "'", "''") + "'"
+	}
+	return `"` + strings.NewReplacer(`\`, `\\`, `"`, `\"`).Replace(s) + `"`
 }
 
 func (w *yw) c(text string) string {
@@ -453,12 +496,12 @@ func (m *Model) sectionPlugins(w *yw) {
 		case "headers":
 			w.line(3, "config:")
 			w.line(4, "set:")
-			w.line(5, "X-App: Helios")
+			w.line(5, "X-App: %s", w.str(m.Plugins.setVal()))
 			w.line(4, "request_set:")
-			w.line(5, "X-From: LB")
+			w.line(5, "X-From: %s", w.str(m.Plugins.reqVal()))
 		case "custom-auth":
 			w.line(3, "config:")
-			w.line(4, "apiKey: %s", VerifAPIKey)
+			w.line(4, "apiKey: %s", w.str(m.Plugins.APIKey()))
 		}
 	}
 }
@@ -468,7 +511,7 @@ var SectionNames = []string{"server", "backends", "load_balancer", "health_check
 
 // YAML renders the model as the text of a configuration file.
 func (m *Model) YAML() string {
-	w := &yw{quote: m.Quote, comments: m.Comments}
+	w := &yw{quote: m.Quote, single: m.Single, comments: m.Comments}
 	order := m.Order
 	if len(order) != len(SectionNames) {
 		order = []int{0, 1, 2, 3, 4, 5, 6, 7, 8, 9}
